@@ -19,10 +19,10 @@ func main() {
 	ca := func(cn, key string, parent *fx.Cert, serial int64) *fx.Cert {
 		return fx.MustMint(fx.CertSpec{CN: cn, Key: key, IsCA: true, Serial: serial}, parent)
 	}
-	R := ca("R", "repro-r", nil, 1)     // self-signed, in the root store
-	Xss := ca("X", "repro-x", nil, 2)   // X self-signed, NOT in the root store
-	Xcross := ca("X", "repro-x", R, 3)  // X cross-certified by R
-	I := ca("I", "repro-i", Xss, 4)     // issued by X's key
+	R := ca("R", "repro-r", nil, 1)    // self-signed, in the root store
+	Xss := ca("X", "repro-x", nil, 2)  // X self-signed, NOT in the root store
+	Xcross := ca("X", "repro-x", R, 3) // X cross-certified by R
+	I := ca("I", "repro-i", Xss, 4)    // issued by X's key
 	L := fx.MustMint(fx.CertSpec{CN: "leaf", Key: "repro-l", Serial: 5}, I)
 
 	g := verifier.NewGraph()
